@@ -61,6 +61,7 @@ structure Eng where
   opened : Bool := false
   primary : Bool := false
   remoteHalt : Bool := false
+  remoteOK : Bool := true        -- would the primary accept a transaction forwarded now (halt lock held there)
   hasDB : Bool := false
   pageSize : Nat := 0
   pageN : Nat := 0
@@ -219,6 +220,8 @@ def commitJournalValid (s : Eng) (mode : Nat) : M Eng := do
   let s := { s with ck := ck }
   let (ck, post) ← liftCk s (s.ck.checksum s.w.chksums s.pageSize commit [])
   let s := { s with ck := ck }
+  -- under a remote halt lock the file is sent to the primary first; a refusal fails the commit
+  ensure s (¬ (s.remoteHalt ∧ !s.remoteOK)) .err
   let file := { hdr with post := post, pages := pages }
   let s := { s with ltx := addLTX s.ltx file }
   let s ← invalidateJournal s mode
@@ -319,6 +322,7 @@ def commitWALBody (s : Eng) : M Eng := do
       pure (mapSet nc pgno 0)) newCks
     let (ck, post) ← liftCk s (s.ck.checksum s.w.chksums s.pageSize commit newCks)
     let s := { s with ck := ck }
+    ensure s (¬ (s.remoteHalt ∧ !s.remoteOK)) .err
     ensure s (¬ (!s.writeable)) .err
     let file := { hdr with post := post, pages := pages }
     let fo := tx.offsets.foldl (fun m e => mapSet m e.1 e.2) s.w.frameOffsets
